@@ -43,7 +43,18 @@ fn layouts(rng: &mut Rng, v: &Value) -> String {
 
 fn malformed(rng: &mut Rng, v: &Value) -> String {
     let t = v.to_string();
-    match rng.below(15) {
+    match rng.below(18) {
+        15 | 16 | 17 => {
+            // white space (a line break above all) dropped into the middle of the text: between
+            // tokens it is harmless, inside a token or a string it makes the text malformed
+            let cs: Vec<char> = t.chars().collect();
+            let pos = if cs.len() < 2 { 0 } else { 1 + rng.below(cs.len() - 1) };
+            let ws = *rng.pick(&["\n", "\r\n", "\n", " ", "\t", "\r"]);
+            let mut o: String = cs[..pos.min(cs.len())].iter().collect();
+            o.push_str(ws);
+            o.extend(cs[pos.min(cs.len())..].iter());
+            o
+        }
         0 => String::new(),
         1 => t.chars().take(t.chars().count().saturating_sub(1)).collect(),
         2 => format!("{} x", t),
@@ -147,6 +158,7 @@ pub fn gen_c18(rng: &mut Rng, count: usize, _thorough: bool) -> Vec<Emit> {
         ("{\"or\":[{\"var\":\"a\"},{\"log\":\"LEAK\"}]}", "{\"a\":1}"), ("", "null"), ("null", ""), ("{\"var\":\"\"}", "1e400"), ("1e-400", "null"),
         ("{\"var\":\"\"}", "9.630000000000007e+246"), ("{\"var\":\"\"}", "\"\\ud83d\\ude00\""), ("{\"var\":\"\"}", "\"\\ud83d\""), ("{\"cat\":[\"é\",{\"var\":\"\"}]}", "\"日本\""),
         ("{\"var\":\"\"}", "18446744073709551615"), ("{\"var\":\"\"}", "18446744073709551616"), ("{\"var\":\"\"}", "-9223372036854775809"),
+        ("{\"var\":\"\"}", "1\n2"), ("{\"var\":\"\"}", "tr\nue"), ("{\"cat\":[{\"var\":\"\"},\"!\"]}", "\"a\nb\""), ("{\"var\":\"\"}", "1\r\n2"), ("{\"var\":\"\"}", "[1,\n2]"),
         ("{\"var\":\"\"}", "{\"b\":1,\"a\":2,\"a\":3}"), ("{\"var\":\"\"}", "[1,2,]"), ("{\"var\":\"\"}", "01"), ("{\"var\":\"\"}", "1."), ("{\"var\":\"\"}", ".5"),
     ];
     for (l, d) in fixed {
